@@ -116,7 +116,7 @@ Proof.
 Qed.
 
 Lemma ident_in_id i : id_wf i -> L sv_id_r (map A (ident_print i)).
-Proof. destruct i as [s|n]; cbn [ident_print id_wf]; [apply seg_in_id|intros _; apply lang_pls_l, print_dec_in_num]. Qed.
+Proof. destruct i as [s|n]; cbn [ident_print id_wf]; [intros [H _]; apply seg_in_id, H|intros _; apply lang_pls_l, print_dec_in_num]. Qed.
 
 (* ---- dot-separated identifier lists ---- *)
 Lemma tail_in_star l : Forall id_wf l ->
